@@ -102,9 +102,9 @@ func runC09(c *Ctx) {
 		case 0:
 			set = 0
 		case 1:
-			set = 1 << uint(r.Intn(10))
+			set = 1 << uint(r.Intn(asm.NumPerturbations))
 		default:
-			set = r.Intn(1 << 10)
+			set = r.Intn(1 << asm.NumPerturbations)
 		}
 		text := asm.Perturb(lines, set, d, r)
 		cs := func() interface{} {
@@ -141,7 +141,7 @@ func runC09(c *Ctx) {
 			c.Inc("roundtrips_" + reader)
 		}
 		bits := 0
-		for b := 0; b < 10; b++ {
+		for b := 0; b < asm.NumPerturbations; b++ {
 			if set&(1<<uint(b)) != 0 {
 				bits++
 			}
